@@ -60,6 +60,19 @@ func ruleC19AllDbs(c *Ctx) {
 			if _, f := loadedField(valueOf(in)); f == fDbs {
 				touchesTable = true
 			}
+			// or through a helper that returns a collection built from the table
+			if call, ok := in.(*ssa.Call); ok {
+				if g := call.Call.StaticCallee(); g != nil && c.InPkg(g) && g.Signature.Results().Len() >= 1 {
+					switch g.Signature.Results().At(0).Type().Underlying().(type) {
+					case *types.Map, *types.Slice:
+						for _, in2 := range instrsOf(g) {
+							if _, f := loadedField(valueOf(in2)); f == fDbs {
+								touchesTable = true
+							}
+						}
+					}
+				}
+			}
 		}
 		if !touchesTable {
 			continue
@@ -218,6 +231,72 @@ func rangeSource(v ssa.Value, isSrc func(ssa.Value) bool, seen map[ssa.Value]boo
 
 const textRecords = "R-C19-records: the snapshot writer and loader agree on the record stream: (a) the header's key count is the keyspace count and the writer emits a record for every stored entry (no path from a non-nil entry back to the loop head without encoding it), (b) every field of the persisted headers is written by the writer and read by the loader, (c) every field of a key object is saved and restored, (d) both branch on every key type"
 
+// helperClosure: fn and the package functions it calls statically (transitively, small depth) — a refactoring that
+// moves part of a function into helpers must not change what a rule about "the writer" or "the loader" sees.
+func (c *Ctx) helperClosure(fn *ssa.Function, depth int) []*ssa.Function {
+	seen := map[*ssa.Function]bool{}
+	var out []*ssa.Function
+	var rec func(f *ssa.Function, d int)
+	rec = func(f *ssa.Function, d int) {
+		if seen[f] || d > depth {
+			return
+		}
+		seen[f] = true
+		out = append(out, f)
+		for _, af := range f.AnonFuncs {
+			rec(af, d)
+		}
+		for _, in := range instrsOf(f) {
+			if call, ok := in.(ssa.CallInstruction); ok {
+				if g := call.Common().StaticCallee(); g != nil && c.InPkg(g) && len(g.Blocks) > 0 {
+					rec(g, d+1)
+				}
+			}
+		}
+	}
+	rec(fn, 0)
+	return out
+}
+
+// mustPass: every path from the entry of g to a return passes an instruction satisfying pred (directly or through a
+// callee that must pass it).
+func (c *Ctx) mustPass(g *ssa.Function, pred func(ssa.Instruction) bool, depth int) bool {
+	if len(g.Blocks) == 0 || depth > 3 {
+		return false
+	}
+	hit := func(b *ssa.BasicBlock) bool {
+		for _, in := range b.Instrs {
+			if pred(in) {
+				return true
+			}
+			if call, ok := in.(*ssa.Call); ok {
+				if h := call.Call.StaticCallee(); h != nil && c.InPkg(h) && h != g && c.mustPass(h, pred, depth+1) {
+					return true
+				}
+			}
+		}
+		return false
+	}
+	seen := map[*ssa.BasicBlock]bool{}
+	stack := []*ssa.BasicBlock{g.Blocks[0]}
+	for len(stack) > 0 {
+		b := stack[len(stack)-1]
+		stack = stack[:len(stack)-1]
+		if seen[b] {
+			continue
+		}
+		seen[b] = true
+		if hit(b) {
+			continue
+		}
+		if _, ok := b.Instrs[len(b.Instrs)-1].(*ssa.Return); ok {
+			return false
+		}
+		stack = append(stack, b.Succs...)
+	}
+	return true
+}
+
 func ruleC19Records(c *Ctx) {
 	c.S.Rule("R-C19-records", textRecords, 4)
 	pa := c.persist()
@@ -227,9 +306,21 @@ func ruleC19Records(c *Ctx) {
 	}
 	W, L := pa.writer, pa.loader
 	// (a) every non-nil entry is encoded
-	isEncode := func(in ssa.Instruction) bool {
+	isEncodeCall := func(in ssa.Instruction) bool {
 		call, ok := in.(*ssa.Call)
 		return ok && strings.HasSuffix(fullCalleeName(call), "encoding/gob.Encoder).Encode")
+	}
+	isEncode := func(in ssa.Instruction) bool {
+		if isEncodeCall(in) {
+			return true
+		}
+		// a helper that encodes on every path (write one record)
+		if call, ok := in.(*ssa.Call); ok {
+			if g := call.Call.StaticCallee(); g != nil && c.InPkg(g) {
+				return c.mustPass(g, isEncodeCall, 0)
+			}
+		}
+		return false
 	}
 	fBuckets := c.Field("redisDict", "buckets")
 	var itemLoad ssa.Value
@@ -290,27 +381,31 @@ func ruleC19Records(c *Ctx) {
 		}
 	}
 	// (b),(c) field sets
-	storedFields := func(fn *ssa.Function, typ string) map[string]bool {
+	storedFields := func(fn0 *ssa.Function, typ string) map[string]bool {
 		out := map[string]bool{}
-		for _, in := range instrsOf(fn) {
-			if st, ok := in.(*ssa.Store); ok {
-				if fa, ok := st.Addr.(*ssa.FieldAddr); ok && c.ownerName(fieldOf(fa)) == typ {
-					out[fieldOf(fa).Name()] = true
+		for _, fn := range c.helperClosure(fn0, 2) {
+			for _, in := range instrsOf(fn) {
+				if st, ok := in.(*ssa.Store); ok {
+					if fa, ok := st.Addr.(*ssa.FieldAddr); ok && c.ownerName(fieldOf(fa)) == typ {
+						out[fieldOf(fa).Name()] = true
+					}
 				}
 			}
 		}
 		return out
 	}
-	readFields := func(fn *ssa.Function, typ string) map[string]bool {
+	readFields := func(fn0 *ssa.Function, typ string) map[string]bool {
 		out := map[string]bool{}
-		for _, in := range instrsOf(fn) {
-			if u, ok := in.(*ssa.UnOp); ok && u.Op == token.MUL {
-				if fa, ok := u.X.(*ssa.FieldAddr); ok && c.ownerName(fieldOf(fa)) == typ {
-					out[fieldOf(fa).Name()] = true
+		for _, fn := range c.helperClosure(fn0, 2) {
+			for _, in := range instrsOf(fn) {
+				if u, ok := in.(*ssa.UnOp); ok && u.Op == token.MUL {
+					if fa, ok := u.X.(*ssa.FieldAddr); ok && c.ownerName(fieldOf(fa)) == typ {
+						out[fieldOf(fa).Name()] = true
+					}
 				}
-			}
-			if f, ok := in.(*ssa.Field); ok && c.ownerName(fieldOf(f)) == typ {
-				out[fieldOf(f).Name()] = true
+				if f, ok := in.(*ssa.Field); ok && c.ownerName(fieldOf(f)) == typ {
+					out[fieldOf(f).Name()] = true
+				}
 			}
 		}
 		return out
@@ -354,22 +449,24 @@ func ruleC19Records(c *Ctx) {
 	check("key object", "storeKey", readFields(W, "storeKey"), W, "reads", nil)
 	check("key object", "storeKey", storedFields(L, "storeKey"), L, "writes", nil)
 	// (d) key types
-	flagsTested := func(fn *ssa.Function) map[string]bool {
+	flagsTested := func(fn0 *ssa.Function) map[string]bool {
 		out := map[string]bool{}
 		sc := c.Pkg.Types.Scope()
-		for _, in := range instrsOf(fn) {
-			call, ok := in.(*ssa.Call)
-			if !ok || len(call.Call.Args) != 2 {
-				continue
-			}
-			cst, ok := stripValue(call.Call.Args[1]).(*ssa.Const)
-			if !ok || cst.Value == nil {
-				continue
-			}
-			for _, n := range sc.Names() {
-				if strings.HasPrefix(n, "FLAG_KEY_TYPE_") {
-					if k, ok := sc.Lookup(n).(*types.Const); ok && k.Val().ExactString() == cst.Value.ExactString() && types.Identical(k.Type(), cst.Type()) {
-						out[n] = true
+		for _, fn := range c.helperClosure(fn0, 2) {
+			for _, in := range instrsOf(fn) {
+				call, ok := in.(*ssa.Call)
+				if !ok || len(call.Call.Args) != 2 {
+					continue
+				}
+				cst, ok := stripValue(call.Call.Args[1]).(*ssa.Const)
+				if !ok || cst.Value == nil {
+					continue
+				}
+				for _, n := range sc.Names() {
+					if strings.HasPrefix(n, "FLAG_KEY_TYPE_") {
+						if k, ok := sc.Lookup(n).(*types.Const); ok && k.Val().ExactString() == cst.Value.ExactString() && types.Identical(k.Type(), cst.Type()) {
+							out[n] = true
+						}
 					}
 				}
 			}
